@@ -463,8 +463,108 @@ def run_case(k, rng, tier, batch, res, problems, n_oracle):
     return case
 
 
+def metric_lists(metrics):
+    """metric lists that names cannot tell apart: default names ("unknown") on different metrics, the same explicit name
+    twice, the same object twice, mixed with a uniquely named one.  -> list of (label, [(ThresholdMetric, spec)])"""
+    from ibicus.evaluate.metrics import ThresholdMetric
+
+    def mk(spec, **kw):
+        kind, a, b = spec
+        return ThresholdMetric(threshold_value=a if b is None else [a, b], threshold_type=kind, **kw)
+
+    (m0, _, s0), (m1, _, s1) = metrics
+    flip = {"higher": "lower", "lower": "higher", "between": "outside", "outside": "between"}
+    s2 = (flip[s0[0]], s0[1], s0[2])  # the complementary type on the same threshold(s): very different counts
+    return [
+        ("default names", [(mk(s0), s0), (mk(s1), s1), (mk(s2), s2)]),
+        ("same explicit name", [(mk(s0, name="days"), s0), (mk(s2, name="days"), s2), (m1, s1)]),
+        ("same object twice", [(m0, s0), (m1, s1), (m0, s0)]),
+    ]
+
+
+def check_rows(out, expected, cols_scale, what, label, problem):
+    """the returned frame row by row, BY POSITION: expected = [(key, {column: reference array | None})]"""
+    if out[0] == "raise":
+        problem(what, f"{label}: raised {out[1]}", {"relation": "rows_by_position"})
+        return
+    df = out[1]
+    if len(df) != len(expected):
+        problem(what, f"{label}: {len(df)} rows returned, {len(expected)} expected (debiasers x statistics/metrics)", {"relation": "rows_by_position"})
+        return
+    for n, (key, refs) in enumerate(expected):
+        r = df.iloc[n]
+        if r["Correction Method"] != key:
+            problem(what, f"{label}: row {n} belongs to '{r['Correction Method']}', expected '{key}'", {"relation": "rows_by_position"})
+            return
+        for col, ref in refs.items():
+            why = differs(("ok", np.asarray(r[col], dtype=float)), ref, cols_scale)
+            if why:
+                problem(what, f"{label}: row {n} ('{key}', entry {n % max(1, len(expected) // max(1, len(set(k for k, _ in expected))))} of the "
+                        f"statistics/metrics list, Metric='{r.get('Metric', '')}') column {col}: {why}", {"relation": "rows_by_position"})
+                return
+
+
+def oracle_positional(case, problem, obs, rawV, rawF, bcV, bcF, tV, tF, metrics, stats, scale):
+    """several debiasers in **cm_data and metric lists whose names collide: every returned row, by position, is the
+    documented quantity of ITS metric / statistic and ITS data set (the observations passed again as a 'debiaser', as the
+    same array object, must have bias exactly 0 in every row)"""
+    from ibicus.evaluate import marginal, trend
+
+    for label, ml in metric_lists(metrics):
+        mobjs = [m for m, _ in ml]
+        # ---- days per year: never drops a row
+        cms = (("raw", rawV, tV), ("fut", rawF, tF), ("me", obs, tV))
+        out = call(marginal.calculate_bias_days_metrics, obs_data=[obs, tV], metrics=mobjs, **{k: [x, t] for k, x, t in cms})
+        exp = []
+        for key, x, t in cms:
+            for _, ms in ml:
+                cm_, ob_ = ref_days(ms, x, t), ref_days(ms, obs, tV)
+                exp.append((key, {"CM": cm_, "Obs": ob_, "Bias": cm_ - ob_}))
+        check_rows(out, exp, 10.0, "calculate_bias_days_metrics", label, problem)
+        if out[0] == "ok" and len(out[1]) == len(exp):
+            for n in range(2 * len(ml), 3 * len(ml)):
+                if not np.all(np.asarray(out[1].iloc[n]["Bias"], dtype=float) == 0):
+                    problem("calculate_bias_days_metrics", f"{label}: observations against themselves have non-zero days-per-year bias in row {n}",
+                            {"relation": "self_zero"})
+        # ---- marginal bias (absolute: no row is ever dropped; percentage: only when every reference exists)
+        cms2 = (("raw", rawV), ("bc", bcV), ("me", obs))
+        for bt in ("absolute", "percentage"):
+            exp = []
+            for key, x in cms2:
+                for st in stats:
+                    exp.append((key, {"Bias": ref_marginal(bt, st, obs, x)}))
+                for _, ms in ml:
+                    exp.append((key, {"Bias": ref_marginal(bt, "metric", obs, x, ms)}))
+            if any(v is None for _, d in exp for v in d.values()):
+                continue
+            out = call(marginal.calculate_marginal_bias, obs=[obs, tV], statistics=stats, metrics=mobjs, percentage_or_absolute=bt,
+                       **{k: [x, tV] for k, x in cms2})
+            check_rows(out, exp, max(scale, 365.0), "calculate_marginal_bias", f"{label}, {bt}", problem)
+        # ---- trend bias and trend
+        pairs = (("bc", bcV, bcF), ("same", rawV, rawF), ("bc2", bcV, bcF))
+        for tt in ("additive", "multiplicative"):
+            exp, exp2 = [], []
+            for key, v, f_ in pairs:
+                for st in stats:
+                    exp.append((key, {"Bias": ref_trend_bias(tt, st, rawV, rawF, v, f_)}))
+                    exp2.append((key, {"Bias": ref_trend(tt, st, v, f_)}))
+                for _, ms in ml:
+                    exp.append((key, {"Bias": ref_trend_bias(tt, "metric", rawV, rawF, v, f_, ms)}))
+                    exp2.append((key, {"Bias": ref_trend(tt, "metric", v, f_, ms)}))
+            if not any(v is None for _, d in exp for v in d.values()):
+                out = call(trend.calculate_future_trend_bias, raw_validate=rawV, raw_future=rawF, statistics=stats, trend_type=tt, metrics=mobjs,
+                           time_validate=tV, time_future=tF, **{k: [v, f_] for k, v, f_ in pairs})
+                check_rows(out, exp, 100.0, "calculate_future_trend_bias", f"{label}, {tt}", problem)
+            if not any(v is None for _, d in exp2 for v in d.values()):
+                out = call(trend.calculate_future_trend, statistics=stats, trend_type=tt, metrics=mobjs, time_validate=tV, time_future=tF,
+                           **{k: [v, f_] for k, v, f_ in pairs})
+                check_rows(out, exp2, max(scale, 100.0), "calculate_future_trend", f"{label}, {tt}", problem)
+
+
 def oracle_relations(rng, case, data, problem, obs, rawV, rawF, bcV, bcF, tV, tF, metrics, stats, scale):
     from ibicus.evaluate import correlation, marginal, multivariate, trend
+
+    oracle_positional(case, problem, obs, rawV, rawF, bcV, bcF, tV, tF, metrics, stats, scale)
 
     mobjs = [m[0] for m in metrics]
     I, J = obs.shape[1:]
